@@ -152,7 +152,7 @@ class HarnessAbort(BaseException):
 
 RUN_TAPE_BUDGET = 30_000
 LAST = {}              # observations of the most recent auth_impl call (tapes handed to run_tape)
-CASE_SECONDS = 1.0
+CASE_SECONDS = 6.0          # generous: a loaded machine must never turn a slow case into an ABORT (the call budget is the deterministic bound)
 
 
 class Capture:
